@@ -11,6 +11,10 @@ KEYS = [('rsa2048a', 'strong'), ('ed25519a', 'strong'), ('rsa1024a', 'weak'), ('
 HASHES = ['SHA256', 'SHA512', 'SHA1', 'MD5']
 
 
+# operations on ONE live key object: verdicts interleaved with changes of the key's standing
+LIVE_MENU = ['verify-good', 'verify-wrong', 'verify-key', 'expire', 'unexpire', 'revoke', 'derive-pub-verify']
+
+
 class Prop(object):
     ID = 'C17'
     LEVEL = 'model_checking'
@@ -36,6 +40,9 @@ class Prop(object):
                 for expired in (False, True):
                     for revoked in (False, True):
                         u.append(('config', {'key': kname, 'strength': strength, 'hash': h, 'expired': expired, 'revoked': revoked}))
+        for kname in ('ed25519a', 'ecdsa_p256a', 'rsa2048a'):
+            for first in LIVE_MENU:
+                u.append(('live', {'key': kname, 'first': first, 'depth': 3 if tier == 'quick' else 4}))
         return u
 
     def run_case(self, check, case):
@@ -129,6 +136,71 @@ class Prop(object):
                 r.viol('results', {'kind': 'incoherent-result', 'issue_values': kinds}, {'n': n, 'first': combo[0], 'only': list(combo)},
                        'entries %r: %s' % ([repr(sl[ix]) for ix in combo], '; '.join(problems)))
         r.samples.append({'entries': [repr(sl[ix]) for ix in combos[-1]]})
+        return r
+
+    def c_live(self, case):
+        """Every sequence (up to the depth bound) of verdicts and changes of standing on one live key object: a verdict depends on the key's standing at the
+        time it is asked for - expired (most recent self-certification carries an expiry in the past) => falsy, not expired and correct => truthy,
+        wrong => falsy - whatever was verified or changed before."""
+        import itertools
+        import pgpy
+        from datetime import timedelta
+        from pgpy.constants import HashAlgorithm
+        r = Res()
+        if case.get('only'):
+            seqs = [tuple(case['only'])]
+        else:
+            seqs = [(case['first'],) + t for k in range(0, case['depth']) for t in itertools.product(LIVE_MENU, repeat=k)]
+        doc, other = 'live verdicts\n', 'another document\n'
+        for seq in seqs:
+            r.states += 1
+            key, raw = K.pgpy_cert(case['key'])
+            sig = key.sign(doc, hash=HashAlgorithm.SHA256, created=K.dt(K.T0 + 100))
+            expired = revoked = False
+            t = K.T0 + 200
+            for step, op in enumerate(seq):
+                r.transitions += 1
+                t += 100
+                want = None
+                try:
+                    if op == 'expire':
+                        u = key.userids[0]
+                        u |= key.certify(u, created=K.dt(t), key_expiration=timedelta(days=1), hash=HashAlgorithm.SHA256)
+                        expired = True
+                    elif op == 'unexpire':
+                        u = key.userids[0]
+                        u |= key.certify(u, created=K.dt(t), hash=HashAlgorithm.SHA256)
+                        expired = False
+                    elif op == 'revoke':
+                        if not revoked:
+                            key |= key.revoke(key, created=K.dt(t), hash=HashAlgorithm.SHA256)
+                            revoked = True
+                    else:
+                        if op == 'verify-good':
+                            sv, want = key.verify(doc, sig), not expired
+                        elif op == 'verify-wrong':
+                            sv, want = key.verify(other, sig), False
+                        elif op == 'verify-key':
+                            sv, want = key.verify(key), not expired
+                        else:
+                            pub = key.pubkey
+                            sv, want = pub.verify(doc, sig), not expired
+                        got = bool(sv)
+                        if key.is_expired != expired:
+                            got, want = 'is_expired=%r' % key.is_expired, 'is_expired=%r' % expired
+                    oc = 'ok'
+                except pgpy.errors.PGPError as e:
+                    got, oc = False, 'PGPError'
+                    if want is None:
+                        want = 'no error'
+                r.outcomes['live:' + oc] += 1
+                if want is not None and got != want:
+                    r.viol('live', {'kind': 'verdict-depends-on-history', 'op': op, 'expired': expired, 'want': str(want)},
+                           {'key': case['key'], 'only': list(seq[:step + 1]), 'depth': case['depth']},
+                           'key %s, history %s on one object: %s gave %r, expected %r (expired=%s revoked=%s)' % (case['key'], list(seq[:step + 1]), op, got, want, expired, revoked))
+                    break
+        r.dim('key', case['key'])
+        r.samples.append({'key': case['key'], 'history': list(seqs[-1])})
         return r
 
     def c_config(self, case):
